@@ -276,6 +276,7 @@ func OracleC04(run *common.Run, id string, res *Result) int {
 // Budget of one harness run.
 type Budget struct {
 	Main, Contention, Twin, CbFail, Mount int
+	Sched, SchedReps                      int // graphs run under testing/synctest with the PRNG-controlled scheduler, extra schedules per graph
 	Small                                 bool // small-scope enumeration (graphs <= 3 nodes, sampled 4-node graphs) x roots x closed subsets
 	Reps                           int // extra schedules (latency seeds) per generated case
 }
@@ -315,6 +316,9 @@ func Drive(run *common.Run, prop string, b Budget) {
 		}
 		if c.Mount {
 			run.Count("dst-mounter")
+		}
+		if c.Sched {
+			run.Count("controlled-schedule(synctest)")
 		}
 		if c.Platform != "" {
 			run.Count("platform")
@@ -402,6 +406,18 @@ func Drive(run *common.Run, prop string, b Budget) {
 	stream("cbfail", b.CbFail)
 	stream("mount", b.Mount)
 	stream("twin", b.Twin)
+	if T != nil {
+		// controlled schedules: several PRNG-chosen release orders per graph
+		for i := 0; i < b.Sched; i++ {
+			c := Generate(run.Rand.U64(), "sched", run.Thorough())
+			one(c)
+			for k := 0; k < b.SchedReps; k++ {
+				c2 := *c
+				c2.Seed = c.Seed + uint64(k+1)*15485863
+				one(&c2)
+			}
+		}
+	}
 	if b.Small {
 		codes := SmallCases()
 		run.Extra["small_scope_graphs"] = len(SmallGraphs())
